@@ -11,11 +11,40 @@ const UNITS: &[&str] = &[
     "\t", "e\u{301}", "\u{feff}", "👨\u{200d}👩\u{200d}👧", "\u{1f1e9}\u{1f1ea}", "\"", "//",
 ];
 
+/// Code points at the edges of the UTF-8 / UTF-16 length classes.
+const EDGES: &[u32] = &[
+    0x7f, 0x80, 0xff, 0x100, 0x7bf, 0x7c0, 0x7ff, 0x800, 0xfff, 0x1000, 0xd7ff, 0xe000, 0xfffd, 0xffff, 0x10000, 0x1ffff,
+    0x20000, 0xfffff, 0x100000, 0x10ffff,
+];
+
+/// A character that is not from the fixed palette: an edge of a length class, or uniform inside
+/// the 2-, 3- or 4-byte class (never CR, never a surrogate).
+fn odd_char(rng: &mut Rng) -> char {
+    let cp = match rng.below(4) {
+        0 => *rng.pick(EDGES),
+        1 => 0x80 + rng.below(0x800 - 0x80) as u32,
+        2 => {
+            let c = 0x800 + rng.below(0x10000 - 0x800) as u32;
+            if (0xd800..0xe000).contains(&c) {
+                0xe000 + (c - 0xd800)
+            } else {
+                c
+            }
+        }
+        _ => 0x10000 + rng.below(0x110000 - 0x10000) as u32,
+    };
+    char::from_u32(cp).unwrap_or('\u{fffd}')
+}
+
 pub fn gen_text(rng: &mut Rng, max_units: usize) -> String {
     let n = rng.below(max_units + 1);
     let mut s = String::new();
     for _ in 0..n {
-        s += *rng.pick(UNITS);
+        if rng.chance(1, 7) {
+            s.push(odd_char(rng));
+        } else {
+            s += *rng.pick(UNITS);
+        }
     }
     s
 }
